@@ -30,19 +30,19 @@ VERIF = os.path.dirname(os.path.dirname(os.path.abspath(__file__)))
 FILES = ["reader", "scanner", "parser", "composer", "constructor", "resolver", "representer", "serializer", "emitter",
          "__init__", "cyaml", "loader", "dumper", "error", "nodes", "events", "tokens"]
 CHECKS_FOR = {
-    "reader": ["C07", "C03", "C09", "C06", "C18"],
-    "scanner": ["C09", "C06", "C03", "C12", "C08"],
-    "parser": ["C09", "C06", "C05", "C11", "C12"],
-    "composer": ["C13", "C06", "C11", "C03"],
-    "constructor": ["C14", "C08", "C13", "C17", "C02", "C01", "C04"],
-    "resolver": ["C08", "C10", "C02", "C06"],
-    "representer": ["C02", "C17", "C08", "C16", "C10"],
-    "serializer": ["C12", "C16", "C02", "C13"],
-    "emitter": ["C05", "C15", "C02", "C12", "C06"],
-    "__init__": ["C11", "C10", "C12", "C15", "C19"],
+    "reader": ["C07", "C03", "C09", "C06", "C18", "C19"],
+    "scanner": ["C09", "C06", "C03", "C12", "C18", "C08", "C20", "C07"],
+    "parser": ["C09", "C06", "C05", "C11", "C12", "C18", "C03"],
+    "composer": ["C13", "C06", "C11", "C03", "C12"],
+    "constructor": ["C14", "C08", "C13", "C17", "C02", "C01", "C04", "C10", "C19"],
+    "resolver": ["C08", "C10", "C02", "C06", "C19", "C11"],
+    "representer": ["C02", "C17", "C08", "C16", "C10", "C19", "C12"],
+    "serializer": ["C12", "C16", "C02", "C13", "C11", "C15"],
+    "emitter": ["C05", "C15", "C02", "C12", "C06", "C16", "C19"],
+    "__init__": ["C11", "C10", "C12", "C15", "C19", "C18", "C01", "C04", "C02", "C17"],
     "cyaml": ["C06", "C01", "C04", "C10", "C11"],
     "loader": ["C01", "C04", "C06", "C10"],
-    "dumper": ["C02", "C10", "C15", "C17"],
+    "dumper": ["C02", "C10", "C15", "C17", "C12", "C11"],
     "error": ["C09", "C03", "C07"],
     "nodes": ["C09", "C13", "C06"],
     "events": ["C09", "C05", "C06"],
